@@ -319,7 +319,7 @@ func observeTrie(tr *trie.Trie, m *trieModel, alphabet []byte, what string) erro
 // member, so a trie with a member of 5000 bytes or more has no JSON form at all.
 var errKnownC15 = errors.New("known finding C15 json nesting depth")
 
-func rebuildTrie(tr *trie.Trie, direct bool, longest int) (*trie.Trie, error) {
+func rebuildTrie(tr *trie.Trie, direct bool, longest int, receiver ...int) (*trie.Trie, error) {
 	var js []byte
 	var err error
 	if !direct {
@@ -343,10 +343,35 @@ func rebuildTrie(tr *trie.Trie, direct bool, longest int) (*trie.Trie, error) {
 		}
 		return nil, fmt.Errorf("json.Marshal(trie) failed: %.300s", err.Error())
 	}
+	// the receiver: a trie made by New, a zero value (var t trie.Trie), or a *Trie field of a
+	// struct that encoding/json allocates itself
 	fresh := trie.New()
 	jsCopy := bytes.Clone(js)
-	if err := json.Unmarshal(js, fresh); err != nil {
-		return nil, fmt.Errorf("json.Unmarshal of %s failed: %.300s", gen.Abbrev(js), err.Error())
+	mode := 0
+	if len(receiver) > 0 {
+		mode = receiver[0] % 3
+	}
+	switch mode {
+	case 1:
+		fresh = new(trie.Trie)
+		fallthrough
+	case 0:
+		if err := json.Unmarshal(js, fresh); err != nil {
+			return nil, fmt.Errorf("json.Unmarshal of %s failed: %.300s", gen.Abbrev(js), err.Error())
+		}
+	case 2:
+		var holder struct {
+			N int        `json:"n"`
+			T *trie.Trie `json:"t"`
+		}
+		doc := append(append([]byte(`{"n":7,"t":`), js...), '}')
+		if err := json.Unmarshal(doc, &holder); err != nil || holder.T == nil || holder.N != 7 {
+			return nil, fmt.Errorf("json.Unmarshal of a struct with a *Trie field holding %s failed: %v", gen.Abbrev(js), err)
+		}
+		for i := range doc {
+			doc[i] = ']'
+		}
+		fresh = holder.T
 	}
 	// the input buffer belongs to the caller, who reuses it; the rebuilt trie must not depend on it
 	for i := range js {
@@ -499,7 +524,7 @@ func checkC15(c C15Case, o *Obs) error {
 			o.Class("node with 256 children")
 		case "json":
 			desc = "JSON-rebuild"
-			fresh, err := rebuildTrie(tr, step%2 == 0, m.longest())
+			fresh, err := rebuildTrie(tr, step%2 == 0, m.longest(), step+1)
 			if err != nil {
 				return fmt.Errorf("step %d: %w (history %v)", step, err, abbrevHist(hist))
 			}
@@ -520,7 +545,7 @@ func checkC15(c C15Case, o *Obs) error {
 			return err
 		}
 		// A trie rebuilt from the JSON form is indistinguishable.
-		fresh, err := rebuildTrie(tr, step%2 == 1, m.longest())
+		fresh, err := rebuildTrie(tr, step%2 == 1, m.longest(), step+len(c.Ops))
 		if err != nil {
 			return fmt.Errorf("%s: %w", what, err)
 		}
@@ -593,6 +618,24 @@ func exhaustiveC15(thorough bool, emit func(C15Case) bool) {
 		}
 		if !emit(C15Case{Alphabet: gen.B("ab"), Ops: h}) || !emit(C15Case{Alphabet: gen.B("ab"), Ops: h, Rebuild: true}) {
 			return
+		}
+	}
+	// an unbranched run of every length from 1 to 140 edges pruned by one Delete, hanging off the
+	// root or off a branching node, with and without something below the deleted prefix
+	for n := 1; n <= 140; n++ {
+		chain := gen.B(bytes.Repeat([]byte("abcdefg"), n/7+1)[:n])
+		for pi, pre := range []string{"", "q", "qrstuvwxyz0123456789qrstuvwxyz012"} {
+			cat := func(parts ...string) gen.B { return gen.B(strings.Join(parts, "")) }
+			key := cat(pre, string(chain))
+			for ti, tail := range []string{"", "XYZ"} {
+				h := []TrieOp{{Op: "add", S: cat(string(key), tail)}, {Op: "add", S: cat(pre, "#")}, {Op: "add", S: cat(pre, "#!")}, {Op: "del", S: key}, {Op: "add", S: cat(pre, "%")}}
+				if (n+pi+ti)%2 == 0 {
+					h = append(h[:1:1], h[3:]...) // nothing else in the trie
+				}
+				if !emit(C15Case{Alphabet: gen.B("aq#"), Ops: h, Rebuild: n%3 == 0}) {
+					return
+				}
+			}
 		}
 	}
 	// nodes that grow wide (around 16/17 children, and 256) and shrink back to a single child
